@@ -30,7 +30,7 @@ REQUIRE = {
     "EXIT_base_checked": 40,
     "inject_reached:sysexit": 8,
     "split_observed": 12,
-    "split_stale_alarm_window_covered": 4,
+    "split_stale_alarm_window_covered": 3,
     "reach:display._posix_raw_display.Screen._stop": 100,
     "reach:display._posix_raw_display.Screen.signal_restore": 100,
     "reach:display._raw_display_base.Screen._stop_mouse_restore_buffer": 100,
@@ -74,7 +74,9 @@ RULE = (
     "tornado/twisted/trio/zmq, screen with or without hook_event_loop, pop_ups on/off, mouse tracking/bracketed paste/"
     "focus reporting on or off, default or application-installed initial signal handlers) x scripted session (keys, SGR "
     "mouse presses, focus/paste sequences, SIGWINCH with a real size change, 2 alarms, watch_pipe write, watch_file "
-    "write, pop-up open/close; two fixed orders + seeded shuffles in thorough) x injection (none, or ExitMainLoop/Boom "
+    "write, pop-up open/close, keys split over two writes (ESC|[A, a split UTF-8 char, a split SGR mouse report, a split f5) "
+    "with the second write made after the loop read the first and the loop then held waiting > complete_wait; fixed orders + "
+    "seeded shuffles in thorough) x injection (none, or ExitMainLoop / Boom(Exception) / Halt(BaseException) / SystemExit "
     "at the k-th invocation of one of the 8 callback sites, enumerated from the fault-free run of the same "
     "configuration); quick = full enumeration for select and asyncio, first/last/per-site points elsewhere; thorough = "
     "full enumeration everywhere; distinct = distinct (configuration, script, injection); non-trivial = run() was entered "
@@ -268,6 +270,8 @@ def judge(spec, res, ctx, base_rst=None):  # noqa: C901, PLR0912, PLR0915
         # ordering / redraw defects show before any fault is injected: their signature does not name the injection
         if clause in ("ORD", "RDW"):
             v.append((f"C12|{tag}|{clause}|{detail}", msg + f" [session inj={icls}]"))
+        elif spec.get("rst_any_callback") and inj:
+            v.append((f"C12|{tag}|{clause}|{detail}|inj=any-callback:{inj['kind']}", msg))
         else:
             v.append((f"C12|{tag}|{clause}|{detail}|inj={icls}", msg))
 
@@ -676,6 +680,12 @@ RST_DEFERRED: dict = {}
 def shrink_and_report(ctx, spec, res, vs, known, base_rst=None):
     """report each violation; for unlisted signatures try one cheap shrink (truncate the script after the fault)"""
     for sig, msg in vs:
+        if "|EXIT|" in sig and ("-swallowed|inj=" in sig or "-replaced-by:" in sig) and not ctx.replaying and not spec.get("rst_any_callback"):
+            # a fault that is swallowed / replaced wherever it is raised is one mechanism: grouped at the end (flush_rst)
+            head, path = sig.rsplit("|inj=", 1)
+            site, kind = path.rsplit(":", 1)
+            RST_DEFERRED.setdefault((head, kind), {}).setdefault(site, []).append((sig, msg, spec))
+            continue
         if "|RST|" in sig and "|after-" in sig and not ctx.replaying and not spec.get("rst_any_callback"):
             # restoration failures after an injected fault are grouped at the end of the run (flush_rst)
             head, path = sig.rsplit("|after-", 1)
@@ -723,7 +733,8 @@ def flush_rst(ctx):
                         best = (sig, msg, spec)
             wit = dict(best[2], rst_any_callback=True)
             for _ in range(n):
-                ctx.violation(f"{head}|after-{kind}-from-any-callback", best[1] + f" [seen after faults in {sorted(by_site)}]", wit)
+                gsig = f"{head}|inj=any-callback:{kind}" if "|EXIT|" in head else f"{head}|after-{kind}-from-any-callback"
+                ctx.violation(gsig, best[1] + f" [seen after faults in {sorted(by_site)}]", wit)
         else:
             for site, items in by_site.items():
                 for sig, msg, spec in items:
